@@ -711,7 +711,7 @@ package secretstore
 //@   ensures ret1 != nil ==> ret0 == nil
 
 //@ func (*deviceKeystore).memberDeviceForMultiMemberGroup
-//@   for C11
+//@   for C11, C12
 //@   requires dkOK(a) && unlocked(addr(a.mu)) && groupPublicKey != nil
 //@   modifies ksh(a.keystore), ksk(a.keystore), lockstate(addr(a.mu))
 //@   ensures [C11.mm.memberdevice] ret1 == nil ==> omdOK(ret0) && fresh(ret0) && ksh(a.keystore)["accountProofSK"]
@@ -721,8 +721,10 @@ package secretstore
 //@   ensures [C11.ks.inv] ksOK(a.keystore) && unlocked(addr(a.mu))
 //@   ensures ret1 != nil ==> ret0 == nil
 
+//@ # (C12: in a multi-member group - the only type an invitation may designate - the account acts under the member key
+//@ #  derived for that group and the group's own device key, never under accountSK/deviceSK: C11.group.multimember)
 //@ func (*deviceKeystore).memberDeviceForGroup
-//@   for C11, C01, C05, C09
+//@   for C11, C01, C05, C09, C12
 //@   requires dkOK(a) && unlocked(addr(a.mu)) && group != nil
 //@   modifies ksh(a.keystore), ksk(a.keystore), lockstate(addr(a.mu))
 //@   ensures [C11.group.memberdevice] ret1 == nil ==> omdOK(ret0) && fresh(ret0)
